@@ -136,7 +136,11 @@ def undirected_case(ctx, rng, idx, N):
     for _ in range(rng.randint(1, 14) if not big else rng.randint(40, 90)):
         s = min(rng.choice([1, 2, 2, 2, 3, 3, 4, 4, 5, 6]), n)
         edge_sets.add(frozenset(rng.sample(nodes, s)))
-    h = hgx.Hypergraph([tuple(sorted(e)) for e in sorted(edge_sets, key=sorted)])
+    el = [tuple(sorted(e)) for e in sorted(edge_sets, key=sorted)]
+    if rng.random() < 0.3:  # a weighted hypergraph (weights 0 included): the census is about which hyperedges exist
+        h = hgx.Hypergraph(el, weighted=True, weights=[rng.choice([0, 0.5, 1, 3]) for _ in el])
+    else:
+        h = hgx.Hypergraph(el)
 
     def wit(extra=None):
         return {"order": N, "edges": sorted(map(sorted, edge_sets)), "extra": repr(extra)[:900]}
